@@ -346,6 +346,9 @@ class World:
                 L[op["lw"]], dec(op["wells"]), dec(op["pos"]), dec(op["tips"]), dec(op["vol"]), op.get("lc", ""),
                 arm=op.get("arm", 0), label=op.get("label"), compositions=dec(op.get("comps")),
             )
+        elif k == "set_limits":
+            L[op["lw"]].min_volume = op["min"]
+            L[op["lw"]].max_volume = op["max"]
         elif k == "comment":
             wl.comment(op.get("text"))
         elif k == "wash":
